@@ -425,6 +425,8 @@ def post_nt(ip, ctx, out):
 
 
 def replay_nt(ob):
+    if ob['name'].startswith('two/anti'):
+        return {'func': 'anti_axes', 'inputs': {'obligation': ob['name']}}
     if 'start-time' in ob['name']:
         return {'func': 'nt_start_time', 'inputs': {'obligation': ob['name']}}
     return {'func': 'nt_alignment', 'inputs': {'obligation': ob['name'], 'model': ob.get('model')}}
